@@ -345,6 +345,13 @@ structure RangeState (K V : Type) where
   skipFirst : Bool
   firstKey : Option K
 
+/-- the owned end bound `RangeIterator::new_with_skip_owned` installs in its inner iterator -/
+def withEnd (it : ItState K V) (hi : Bound K) : ItState K V :=
+  match hi with
+  | .included k => { it with endBound := some k, endIncl := true }
+  | .excluded k => { it with endBound := some k, endIncl := false }
+  | .unbounded => it
+
 /-- `resolve_range_bounds` + `RangeIterator::new_with_skip_owned` -/
 def rangeStart (cfg : Cfg) (m : RawMap K V) (lo hi : Bound K) : Res (RangeState K V) :=
   let start : Res (Option (Nat × Nat) × Bool) :=
@@ -358,12 +365,7 @@ def rangeStart (cfg : Cfg) (m : RawMap K V) (lo hi : Bound K) : Res (RangeState 
     match info with
     | none => { it := none, skipFirst := skip, firstKey := none }
     | some (leafId, idx) =>
-      let it0 : ItState K V := { leaf := m.getLeaf leafId, idx := idx }
-      let it1 : ItState K V :=
-        match hi with
-        | .included k => { it0 with endBound := some k, endIncl := true }
-        | .excluded k => { it0 with endBound := some k, endIncl := false }
-        | .unbounded => it0
+      let it1 : ItState K V := withEnd { leaf := m.getLeaf leafId, idx := idx } hi
       let fk : Option K := if skip then (m.getLeaf leafId).bind (fun l => l.keys[idx]?) else none
       { it := some it1, skipFirst := skip, firstKey := fk }
 
